@@ -13,7 +13,7 @@ for d in seeded/C*-*/; do
   v=$(echo "$out" | grep -c '^VIOLATION')
   verdict=MISSED; [ $rc -eq 1 ] && [ $v -gt 0 ] && verdict=CAUGHT; [ $rc -eq 2 ] && verdict=HARNESS-ERROR
   # changes recorded as outside what the checks can decide (DESIGN 9.5): a miss is the expected verdict
-  case $name in C05-9|C07-8) [ "$verdict" = MISSED ] && verdict="MISSED-AS-RECORDED";; esac
+  case $name in C05-9|C07-8|C08-9|C09-10|C18-10) [ "$verdict" = MISSED ] && verdict="MISSED-AS-RECORDED";; esac
   echo "$name by $chk: $verdict (exit $rc, $v violations) $(echo "$out" | grep ' tier=' | tail -1 | cut -c1-120)" >> $LOG
 done
 echo DONE >> $LOG
